@@ -624,6 +624,29 @@ Proof.
   - apply in_range_iff. destruct sg; cbn [lo hi]; lia.
 Qed.
 
+Lemma spec_shl_exec_eq : forall sg w a b, 0 < w -> spec_shl_exec sg w a b = spec_shl sg w a b.
+Proof.
+  intros sg w a b Hw. unfold spec_shl_exec, spec_shl. destruct (b <? 0) eqn:E; [reflexivity|].
+  destruct (w <=? b) eqn:E2; [|reflexivity].
+  f_equal. rewrite Z.shiftl_mul_pow2 by lia. symmetry.
+  replace (a * 2 ^ b) with ((a * 2 ^ (b - w)) * 2 ^ w).
+  - apply wrap_multiple. lia.
+  - rewrite <- Z.mul_assoc, <- Z.pow_add_r by lia. f_equal. f_equal. lia.
+Qed.
+
+Lemma spec_shr_exec_eq : forall sg w a b, 0 < w -> in_range sg w a = true -> spec_shr_exec sg w a b = spec_shr sg w a b.
+Proof.
+  intros sg w a b Hw Ha. unfold spec_shr_exec, spec_shr. destruct (b <? 0) eqn:E; [reflexivity|].
+  destruct (w <=? b) eqn:E2; [|reflexivity].
+  f_equal. rewrite Z.shiftr_div_pow2 by lia.
+  pose proof (pow2_split w ltac:(lia)). pose proof (pow2_pos (w - 1) ltac:(lia)).
+  assert (2 ^ w <= 2 ^ b) by (apply Z.pow_le_mono_r; lia).
+  apply in_range_iff in Ha.
+  destruct (a <? 0) eqn:En.
+  - apply (Z.div_unique _ _ _ (a + 2 ^ b)); destruct sg; cbn [lo hi] in Ha; lia.
+  - symmetry. apply Z.div_small. destruct sg; cbn [lo hi] in Ha; lia.
+Qed.
+
 Lemma shift_witnesses :
   impl_shr Signed 8 (-1) 8 = Ok 0 /\ spec_shr Signed 8 (-1) 8 = Ok (-1) /\ impl_shr Signed 8 (-1) 7 = Ok (-1) /\
   impl_shl Signed 8 1 7 = Ok (-128) /\ impl_shl Signed 8 1 8 = Ok 0 /\ impl_shl Signed 32 1 (-1) = Ok 0 /\
@@ -800,6 +823,11 @@ Lemma dec_fn_refuted :
   spec_dec_fn FFloor 9007199254740993 0 = Some (FInt false 9007199254740993).
 Proof. vm_compute. repeat split; reflexivity. Qed.
 
+(* scale > 22: the divisor 1e38 is a rounded constant, the quotient is one ulp off the nearest Float64 *)
+Lemma dec_fn_abs_refuted :
+  impl_dec_fn FAbs (-975) 38 = Some (FBits 4083053478943854748) /\ spec_dec_fn FAbs (-975) 38 = Some (FBits 4083053478943854747).
+Proof. vm_compute. split; reflexivity. Qed.
+
 Lemma dec_fn_examples :
   impl_dec_fn FCeil (-150) 2 = Some (FInt false (-1)) /\ impl_dec_fn FCeil (-50) 2 = Some (FInt true 0) /\
   impl_dec_fn FFloor 155 2 = Some (FInt false 1) /\ impl_dec_fn FTrunc (-159) 2 = Some (FInt false (-1)) /\
@@ -828,3 +856,9 @@ Example round_hyps_sat : 0 <= 10 <= maxp D64 /\ -128 <= 4 /\ in_range Signed 8 (
 Proof. vm_compute. repeat split; discriminate. Qed.
 Example int_fn_hyps_sat : Z.abs (- 2 ^ 53) <= 2 ^ 53 /\ 0 < 32 <= 53 /\ in_range Unsigned 32 4294967295 = true.
 Proof. vm_compute. repeat split; discriminate. Qed.
+
+(* ------------------------------------------------------------------ comparisons *)
+Lemma spec_cmp_reflects : forall a b,
+  (spec_cmp CLt a b = true <-> a < b) /\ (spec_cmp CLe a b = true <-> a <= b) /\ (spec_cmp CEq a b = true <-> a = b) /\
+  (spec_cmp CNe a b = true <-> a <> b) /\ (spec_cmp CGe a b = true <-> a >= b) /\ (spec_cmp CGt a b = true <-> a > b).
+Proof. intros a b. cbn [spec_cmp]. repeat split; lia. Qed.
